@@ -4,6 +4,8 @@ CONSTANTS
   CanonOf <- ArrayCanon
   PyOf <- ArrayPy
   KeyMode = "exact"
+  Lossy = "reject"
+  WrapOf <- ArrayWrap
   MaxOps = 4
   MaxPickles = 1
   Label = "array"
